@@ -817,12 +817,18 @@ func SecurityMatrix() *m.Design {
 		Payload: obj(fld("tok", str(), false), fld("k", str(), false), fld("what", str(), true)),
 		HTTP: &m.HTTPEndpoint{Routes: []m.Route{{Verb: "POST", Path: "/sec/purge"}},
 			Headers: []m.Mapping{{Attr: "tok", Wire: "X-Token"}}, Query: []m.Mapping{{Attr: "k", Wire: "api_key"}}}}
+	// two different schemes left to the implicit Authorization header, as alternatives
+	either := &m.Method{Name: "either", Security: []m.Requirement{jwtRead, {Schemes: []string{"oauth"}, Scopes: []string{"api:read"}}},
+		Creds:   []m.Cred{{Scheme: "jwt", Kind: "token", Attr: "tok"}, {Scheme: "oauth", Kind: "accesstoken", Attr: "acc"}},
+		Payload: obj(fld("tok", str(), false), fld("acc", str(), false), fld("q", str(), false)), ImplicitAuth: []string{"tok", "acc"},
+		HTTP: &m.HTTPEndpoint{Routes: []m.Route{{Verb: "GET", Path: "/sec/either"}}, Query: []m.Mapping{{Attr: "q"}},
+			Headers: []m.Mapping{{Attr: "tok", Wire: "Authorization"}, {Attr: "acc", Wire: "Authorization"}}}}
 	open := &m.Method{Name: "open", NoSecurity: true, Payload: obj(fld("q", str(), false)),
 		HTTP: &m.HTTPEndpoint{Routes: []m.Route{{Verb: "GET", Path: "/sec/open"}}, Query: []m.Mapping{{Attr: "q"}}}}
 	return &m.Design{API: m.API{Name: "secmatrix", Title: "Security matrix"},
 		Types: []*m.UserType{thing}, Schemes: schemes,
-		Services: []*m.Service{{Name: "secmatrix", HasHTTP: true, Security: []m.Requirement{jwtRead}, Methods: []*m.Method{store, fetch, rename, both, login, inherited, purge, open}}},
-		Features: []string{"fixed-design:security-matrix", "implicit-authorization", "explicit-body-without-credential", "lower-case-authorization-header", "alternative-requirements", "two-schemes-one-requirement", "inherited-security", "no-security"}}
+		Services: []*m.Service{{Name: "secmatrix", HasHTTP: true, Security: []m.Requirement{jwtRead}, Methods: []*m.Method{store, fetch, rename, both, login, inherited, purge, either, open}}},
+		Features: []string{"fixed-design:security-matrix", "implicit-authorization", "explicit-body-without-credential", "lower-case-authorization-header", "alternative-requirements", "two-schemes-one-requirement", "inherited-security", "no-security", "two-schemes-share-the-implicit-authorization-header"}}
 }
 
 // RecursiveMatrix is a fixed HTTP design about types that reach themselves:
